@@ -37,6 +37,8 @@ type c14Backend struct {
 	maxLag     time.Duration
 	busy       int // Done calls in progress
 	gen        int // Done calls started
+	lastDone   time.Duration
+	everDone   bool
 	lastPickAt time.Duration
 	maxGap     time.Duration
 }
@@ -151,6 +153,7 @@ func c14Cycle(r *zsim.Run, p *p2cPicker, ids map[balancer.SubConn]int, bes []*c1
 	exclusive = exclusive && gen == b.gen // no other completion of this connection overlapped
 	b.dones++
 	s1, lag := c.success, time.Duration(c.lag)
+	defer func() { b.lastDone, b.everDone = r.Now(), true }()
 	r.Logf("%s conn %d lat %v err %v -> success %d lag %v inflight %d", who, id, lat, e, s1, lag, c.inflight)
 	if !acceptable {
 		r.FaultFired("unacceptable-completion")
@@ -167,6 +170,12 @@ func c14Cycle(r *zsim.Run, p *p2cPicker, ids map[balancer.SubConn]int, bes []*c1
 		}
 		if !acceptable && s1 > s0 {
 			r.Failf("success-wrong-direction", "connection %d: success score rose from %d to %d after an unacceptable completion (err=%v)", id, s0, s1, e)
+			return false
+		}
+		// an unacceptable completion at least a millisecond after the previous one must actually lower a positive score
+		// (otherwise a backend failing at a high request rate would never become unhealthy)
+		if !acceptable && s0 > 0 && s1 >= s0 && b.everDone && r.Now()-b.lastDone >= time.Millisecond {
+			r.Failf("success-does-not-fall", "connection %d: success score stayed at %d after an unacceptable completion %v after the previous completion (err=%v)", id, s1, r.Now()-b.lastDone, e)
 			return false
 		}
 	}
